@@ -15,7 +15,8 @@ def clip_job(job):
     from picosvg.svg import SVG
     pico, vb = job
     reframed = re.sub(r'viewBox="[^"]*"', 'viewBox="%d %d %d %d"' % vb, pico, count=1)
-    rec = {"kind": "clip", "vb": list(vb), "box": BOX, "a": [], "b": {"k": "exc", "layers": [], "outp": {"nodes": []}}}
+    box = BOX if max(vb[0] + vb[2], vb[1] + vb[3]) <= 19 else [vb[0] - 3, vb[1] - 3, vb[0] + vb[2] + 3, vb[1] + vb[3] + 3]
+    rec = {"kind": "clip", "vb": list(vb), "box": box, "a": [], "b": {"k": "exc", "layers": [], "outp": {"nodes": []}}}
     try:
         rec["a"] = D.project(reframed)["layers"]
     except Exception as e:  # noqa
@@ -27,6 +28,20 @@ def clip_job(job):
         out = type(e).__name__ + ": " + str(e)[:200]
         rec["b"]["t"] = type(e).__name__
     return rec, reframed, out
+
+
+def overhang_family():
+    """shapes that cross a side of a 64-unit viewBox by 1/32 .. 1/2 unit (less than the library's
+    size-relative tolerance upwards): clipping is exact, not 'within tolerance'"""
+    jobs = []
+    for k in (2, 3, 8, 32):                       # overhang in 1/64 units
+        o = k / 64
+        for d in ("M10,10 L%s,10 L%s,30 L10,30 Z" % (64 + o, 64 + o), "M%s,5 L20,5 L20,25 L%s,25 Z" % (-o, -o),
+                  "M5,%s L25,%s L25,20 L5,20 Z" % (-o, -o), "M30,40 L50,40 L50,%s L30,%s Z" % (64 + o, 64 + o),
+                  "M%s,%s L%s,%s L%s,%s L%s,%s Z" % (-o, -o, 64 + o, -o, 64 + o, 64 + o, -o, 64 + o)):
+            jobs.append(('<svg xmlns="http://www.w3.org/2000/svg" viewBox="0 0 64 64"><defs/><path d="%s" fill="red"/>'
+                         '<path d="M1,1 L9,1 L9,9 Z"/></svg>' % d, (0, 0, 64, 64)))
+    return jobs
 
 
 def dense(d, steps=64):
@@ -136,6 +151,7 @@ def run(out, tier):
         for i, p in enumerate(picos):
             for vb in ([VBS[(i + k) % len(VBS)] for k in (0, 3)] if tier == "quick" else VBS):
                 jobs.append((p, vb))
+        jobs += overhang_family()
         res = common.pmap(clip_job, jobs)
         recs, meta = [], []
         for r, src, o in res:
